@@ -13,9 +13,43 @@ def norm(s):
     return re.sub(r"\s+", "", s or "")
 
 
-def shape_record(rid, run):
+TRY_ATTR = re.compile(r"(?:#\s*\[|[(,])\s*(?:owned_|ref_)?try_\w+\s*\(")
+
+
+def split_top(s, sep):
+    out, depth, cur = [], 0, ""
+    for ch in s:
+        if ch in "([{<":
+            depth += 1
+        elif ch in ")]}>":
+            depth -= 1
+        if ch == sep and depth == 0:
+            out.append(cur)
+            cur = ""
+        else:
+            cur += ch
+    out.append(cur)
+    return out
+
+
+def declared_errs(src):
+    """error types written in the fallible trait instructions of the input (second top-level argument, before `|`): a fact about the input text"""
+    out = set()
+    for m in TRY_ATTR.finditer(src):
+        depth, j = 1, m.end()
+        while j < len(src) and depth:
+            depth += src[j] in "([{"
+            depth -= src[j] in ")]}"
+            j += 1
+        args = split_top(split_top(src[m.end():j - 1], "|")[0], ",")
+        if len(args) >= 2:
+            out.add(norm(args[1]))
+    return sorted(out)
+
+
+def shape_record(rid, run, src=""):
     p = run["proj"]
-    rec = {"id": rid, "parse": p["parse"], "non_impl_items": p.get("non_impl_items", 0) if p["parse"] == "ok" else 0, "impls": []}
+    rec = {"id": rid, "parse": p["parse"], "non_impl_items": p.get("non_impl_items", 0) if p["parse"] == "ok" else 0, "impls": [], "declared_errs": declared_errs(src)}
     if p["parse"] != "ok":
         return rec
     for im in p["impls"]:
@@ -40,20 +74,23 @@ def dialect_cell(stream, abstract, src):
                 "lit_or_pat": bool(names & {"literal", "pattern"}), "child": "child" in names or a["textra"].startswith("cp_"), "type_hint": bool(names & {"hint_s", "hint_t", "hint_u"}),
                 "map_idx": "map_idx" in names}
     return {"dt": "enum" if re.search(r"\benum\b", src) else "struct", "kind": "ie" if "into_existing" in src else "other", "stream": stream,
+            "shape": "tuple" if re.search(r"\bstruct \w+(<[^>]*>)?\s*\(", src) else "named",
             "bare_parent": bool(re.search(r"#\[parent\]|#\[parent\(\w+\)\]", src)), "ghosts": "ghosts" in src}
 
 
 def run(tier, seed):
     ctx = core.Ctx("C17", tier, seed, LEVEL)
     srcs = streams.exploration_sources(ctx, tier, seed, caps={"arms": 40000, "c15": 20000}, which=("arms", "c15", "c04", "repo"))
-    from checks import c15
+    from checks import c15, c04
+    for c in streams.tlc_cases(ctx, "MC_C04", "MC_C04_forms", 4000 if tier == "quick" else None, seed):      # qualified / generic counterpart and error types
+        srcs.append(("c04forms", c, c04.concretize(c, "struct")))
     for c in streams.tlc_cases(ctx, "MC_C15", "MC_C06_q", 15000 if tier == "quick" else None, seed):
         srcs.append(("c06", c["in"], c15.concretize(c["in"], True)))
     inp = [{"id": i, "src": s[2]} for i, s in enumerate(srcs)]
     res = core.expand(inp, "syn1")
     acc = [(i, rr["runs"][0]) for i, rr in enumerate(res) if rr["runs"][0]["verdict"] == "ok"]
     pres = core.project([{"id": i, "runs": [r]} for i, r in acc])
-    trace = [shape_record(pr["id"], pr["runs"][0]) for pr in pres]
+    trace = [shape_record(pr["id"], pr["runs"][0], srcs[pr["id"]][2]) for pr in pres]
     ok, mism, st = core.judge("Trace_C17", trace, tag="c17", timeout=3000)
     ctx.add_tlc(st)
     outs = {i: r.get("out", "") for i, r in acc}
